@@ -39,19 +39,6 @@ pub open spec fn is_subseq(a: Seq<u8>, b: Seq<u8>) -> bool
 pub open spec fn rank(d: Dechunker) -> int {
     match d { Dechunker::Ending => 2, Dechunker::Trailer => 1, Dechunker::Size => 3, Dechunker::CrLf => 3, Dechunker::Chunk(_) => 3, Dechunker::Ended => 0 }
 }
-/// C07: the o bytes produced by one call are one contiguous piece src[a..a+o] of the i consumed bytes
-/// (chunk data of two different chunks is never contiguous in the coding).  The piece ends at the consumed
-/// count, or 2 bytes (the chunk's closing CRLF) before it when the call also finished the chunk; a call
-/// that continues an open chunk copies from offset 0.
-pub open spec fn seg_start(i: int, o: int, s1: Dechunker) -> int {
-    if o == 0 { 0 } else if s1 is Size { i - o - 2 } else { i - o }
-}
-pub open spec fn one_segment(src: Seq<u8>, dst: Seq<u8>, i: int, o: int, s0: Dechunker, s1: Dechunker) -> bool {
-    let a = seg_start(i, o, s1);
-    &&& 0 <= a && a + o <= i
-    &&& src.subrange(a, a + o) =~= dst.subrange(0, o)
-    &&& (o > 0 ==> (s0 is Chunk ==> a == 0) && (s1 is Chunk || s1 is CrLf || s1 is Size))
-}
 /// states in which the decoder may rest between calls
 pub open spec fn dechunker_wf(d: Dechunker) -> bool { !(d is Trailer) && (d is Chunk ==> d->Chunk_0 > 0) }
 
@@ -128,6 +115,42 @@ pub proof fn lemma_parse_unfold(s: Dechunker, win: Seq<u8>, room: int)
     reveal(spec_parse);
 }
 ''')
+PROOF('lemma_parse_basic', ['C12', 'C07'], '''
+/// C12 for ARBITRARY server bytes, derived from the interpreter: counts in range, every produced byte is a copy of a
+/// consumed byte in order, and the decoder never rests in the transient Trailer state
+pub proof fn lemma_parse_basic(s: Dechunker, win: Seq<u8>, room: int)
+    requires room >= 0, dechunker_wf(s) || (s is Trailer && (spec_find_crlf(win) matches Some(i) && i > 0)),
+    ensures spec_parse(s, win, room) matches Some(p) ==> 0 <= p.i <= win.len() && p.out.len() <= room && dechunker_wf(p.state)
+            && is_subseq(p.out, win.subrange(0, p.i))
+    decreases win.len(), rank(s)
+{
+    lemma_parse_unfold(s, win, room);
+    lemma_first_cr(win);
+    assert(is_subseq(Seq::<u8>::empty(), win.subrange(0, 0)));
+    match spec_step(s, win, room) {
+        StepOut::Stop => {}
+        StepOut::Error => {}
+        StepOut::Go { next, consumed, copied, more } => {
+            lemma_subseq_refl(copied);
+            if s is Chunk { assert(copied =~= win.subrange(0, consumed)); }
+            else { lemma_subseq_extend_b(Seq::<u8>::empty(), Seq::<u8>::empty(), win.subrange(0, consumed)); assert(Seq::<u8>::empty() + win.subrange(0, consumed) =~= win.subrange(0, consumed)); }
+            if more && !(consumed < 0 || consumed > win.len() || copied.len() > room || (consumed == 0 && rank(next) >= rank(s))) {
+                let rest = win.subrange(consumed, win.len() as int);
+                if next is Trailer { assert(rest =~= win); }
+                lemma_parse_basic(next, rest, room - copied.len());
+                match spec_parse(next, rest, room - copied.len()) {
+                    Some(r) => {
+                        assert(rest.subrange(0, r.i) =~= win.subrange(consumed, consumed + r.i));
+                        lemma_subseq_concat(copied, win.subrange(0, consumed), r.out, rest.subrange(0, r.i));
+                        assert(win.subrange(0, consumed) + rest.subrange(0, r.i) =~= win.subrange(0, consumed + r.i));
+                    }
+                    None => {}
+                }
+            }
+        }
+    }
+}
+''')
 PROOF('lemma_subseq', ['C12', 'C07'], '''
 pub proof fn lemma_subseq_extend_b(a: Seq<u8>, b: Seq<u8>, x: Seq<u8>)
     requires is_subseq(a, b)
@@ -157,6 +180,34 @@ pub proof fn lemma_subseq_extend_both(a: Seq<u8>, b: Seq<u8>, x: Seq<u8>)
         assert((a + x).drop_last() =~= a + x.drop_last());
         assert((b + x).drop_last() =~= b + x.drop_last());
         assert((a + x).last() == (b + x).last());
+    }
+}
+pub proof fn lemma_subseq_refl(a: Seq<u8>)
+    ensures is_subseq(a, a)
+    decreases a.len()
+{
+    if a.len() > 0 { lemma_subseq_refl(a.drop_last()); }
+}
+pub proof fn lemma_subseq_concat(a: Seq<u8>, b: Seq<u8>, x: Seq<u8>, y: Seq<u8>)
+    requires is_subseq(a, b), is_subseq(x, y)
+    ensures is_subseq(a + x, b + y)
+    decreases y.len()
+{
+    if x.len() == 0 {
+        assert(a + x =~= a);
+        lemma_subseq_extend_b(a, b, y);
+    } else if y.len() == 0 {
+    } else {
+        assert((b + y).drop_last() =~= b + y.drop_last());
+        if x.last() == y.last() && is_subseq(x.drop_last(), y.drop_last()) {
+            lemma_subseq_concat(a, b, x.drop_last(), y.drop_last());
+            assert((a + x).drop_last() =~= a + x.drop_last());
+            assert((a + x).last() == (b + y).last());
+        } else {
+            lemma_subseq_concat(a, b, x, y.drop_last());
+            let ax = a + x; let by = b + y;
+            if ax.last() == by.last() && is_subseq(ax.drop_last(), by.drop_last()) {} else {}
+        }
     }
 }
 pub proof fn lemma_first_of(b: Seq<u8>, v: u8, n: int)
@@ -320,48 +371,36 @@ FN('parse_input', props=['C07', 'C12', 'C01'], ret='r',
    requires=[('aux.parse_input.state', 'dechunker_wf(*old(self))')],
    ensures=[
        ('aux.parse_input.frame', 'final(dst).len() == old(dst).len()'),
-       ('C12.counts', 'r is Ok ==> r->Ok_0.0 <= src.len() && r->Ok_0.1 <= old(dst).len()'),
-       ('C12.state_rests_even_on_error', 'dechunker_wf(*final(self))'),
-       ('C12.copy_in_order', 'r is Ok ==> is_subseq(final(dst)@.subrange(0, r->Ok_0.1 as int), src@.subrange(0, r->Ok_0.0 as int))'),
-       ('C07.one_chunk_per_call', 'r is Ok ==> one_segment(src@, final(dst)@, r->Ok_0.0 as int, r->Ok_0.1 as int, *old(self), *final(self))'),
-       ('C07.open_chunk_no_skip', '*old(self) is Chunk && r is Ok && r->Ok_0.1 == 0 ==> r->Ok_0.0 == 0 && *final(self) == *old(self)'),
-       ('C07.crlf_round', '*old(self) is CrLf && r is Ok ==> r->Ok_0.1 == 0 && ((r->Ok_0.0 == 0 && *final(self) is CrLf) || (r->Ok_0.0 == 2 && *final(self) is Size))'),
        ('C07.parse_input_is_the_interpreter', '''match spec_parse(*old(self), src@, old(dst).len() as int) {
             None => r is Err,
             Some(p) => r == Ok::<(usize, usize), Error>((p.i as usize, p.out.len() as usize)) && p.i >= 0 && *final(self) == p.state && final(dst)@.subrange(0, p.out.len() as int) == p.out }'''),
+       ('C12.counts', 'r is Ok ==> r->Ok_0.0 <= src.len() && r->Ok_0.1 <= old(dst).len()'),
+       ('C12.state_rests_even_on_error', 'dechunker_wf(*final(self))'),
+       ('C12.copy_in_order', 'r is Ok ==> is_subseq(final(dst)@.subrange(0, r->Ok_0.1 as int), src@.subrange(0, r->Ok_0.0 as int))'),
        ('C07.ended_consumes_nothing', '*old(self) is Ended ==> r == Ok::<(usize, usize), Error>((0usize, 0usize)) && *final(self) is Ended'),
    ],
    head='proof { axiom_slice_len(src); axiom_slice_len(dst); }',
    loops={1: {'kw': 'loop',
               'before': '''
-        let ghost mut seg_a: int = 0;
         let ghost mut p_in: usize = 0;
         let ghost mut p_out: usize = 0;
         let ghost mut p_state: Dechunker = *self;
         let ghost mut p_dst: Seq<u8> = dst@;
         proof {
-            assert(dst@.subrange(0, 0) =~= src@.subrange(0, 0));
             assert(src@.subrange(0, src.len() as int) =~= src@);
             match spec_parse(*self, src@, dst.len() as int) { Some(q) => { assert(dst@.subrange(0, 0) + q.out =~= q.out); } None => {} }
         }
 ''',
               'invariant_except_break': [
                   ('aux.parse_input.trailer_transient', '!(*self is Trailer) || (spec_find_crlf(src@.subrange(pos.index_in as int, src.len() as int)) matches Some(i) && i > 0)'),
-                  ('aux.parse_input.loop.crlf_first', '*old(self) is CrLf ==> pos.index_in == 0'),
                   ('aux.parse_input.loop.interpreter', '''match spec_parse(*self, src@.subrange(pos.index_in as int, src.len() as int), dst.len() - pos.index_out) {
                         None => spec_parse(*old(self), src@, old(dst).len() as int) is None,
                         Some(q) => spec_parse(*old(self), src@, old(dst).len() as int) == Some(ParseOut { state: q.state, i: pos.index_in + q.i, out: dst@.subrange(0, pos.index_out as int) + q.out }) }'''),
-                  ('aux.parse_input.loop.no_size_after_data', 'pos.index_out > 0 ==> *self is Chunk || *self is CrLf'),
               ],
               'invariant': [
                   ('aux.parse_input.loop.bounds', 'pos.index_in <= src.len() && pos.index_out <= dst.len() && dst.len() == old(dst).len() && src.len() <= usize::MAX'),
                   ('aux.parse_input.loop.chunk_pos', '*self is Chunk ==> self->Chunk_0 > 0'),
-                  ('aux.parse_input.loop.subseq', 'is_subseq(dst@.subrange(0, pos.index_out as int), src@.subrange(0, pos.index_in as int))'),
-                  ('aux.parse_input.loop.segment', '0 <= seg_a && seg_a + pos.index_out <= pos.index_in && src@.subrange(seg_a, seg_a + pos.index_out) == dst@.subrange(0, pos.index_out as int)'),
-                  ('aux.parse_input.loop.segment_state', 'pos.index_out > 0 ==> (*old(self) is Chunk ==> seg_a == 0) && (*self is Chunk || *self is CrLf ==> seg_a + pos.index_out == pos.index_in) && (*self is Size ==> seg_a + pos.index_out + 2 == pos.index_in) && (*self is Chunk || *self is CrLf || *self is Size)'),
                   ('aux.parse_input.loop.ended', '*old(self) is Ended ==> *self is Ended && pos.index_in == 0 && pos.index_out == 0'),
-                  ('aux.parse_input.loop.nodata_yet', 'pos.index_out == 0 && *old(self) is Chunk ==> (*self == *old(self) && pos.index_in == 0)'),
-                  ('aux.parse_input.loop.crlf_round', '*old(self) is CrLf ==> pos.index_out == 0 && ((pos.index_in == 0 && *self is CrLf) || (pos.index_in == 2 && *self is Size))'),
               ],
               'ensures': [('aux.parse_input.loop.exit', '!(*self is Trailer)'),
                           ('aux.parse_input.loop.exit_interpreter', 'spec_parse(*old(self), src@, old(dst).len() as int) == Some(ParseOut { state: *self, i: pos.index_in as int, out: dst@.subrange(0, pos.index_out as int) })')],
@@ -372,19 +411,19 @@ FN('parse_input', props=['C07', 'C12', 'C01'], ret='r',
                     lemma_first_cr(src@.subrange(pos.index_in as int, src.len() as int)); }
 ''',
               'after': '''
-        proof { assert(seg_a == seg_start(pos.index_in as int, pos.index_out as int, *self) || pos.index_out == 0); }
+        proof { lemma_parse_basic(*old(self), src@, dst.len() as int); }
 ''',
               }},
    before=[('if !more {', '''
             proof {
-                // interpreter: unfold once at the state before this step
                 let win0 = src@.subrange(p_in as int, src.len() as int);
-                let room0 = dst.len() - p_out;
-                lemma_parse_unfold(p_state, win0, room0);
                 let c = pos.index_in - p_in;
                 let k = pos.index_out - p_out;
                 assert(win0.subrange(c, win0.len() as int) =~= src@.subrange(pos.index_in as int, src.len() as int));
                 assert(win0.subrange(0, k) =~= src@.subrange(p_in as int, p_in + k));
+                assert(p_dst.subrange(0, p_out as int) =~= dst@.subrange(0, p_out as int)) by {
+                    if p_state is Chunk {} else { assert(dst@ == p_dst); }
+                }
                 assert(dst@.subrange(0, pos.index_out as int) =~= p_dst.subrange(0, p_out as int) + dst@.subrange(p_out as int, pos.index_out as int));
                 match spec_parse(*self, src@.subrange(pos.index_in as int, src.len() as int), dst.len() - pos.index_out) {
                     Some(q) => {
@@ -392,30 +431,6 @@ FN('parse_input', props=['C07', 'C12', 'C01'], ret='r',
                         assert((a + b) + q.out =~= a + (b + q.out));
                     }
                     None => {}
-                }
-                lemma_first_cr(src@.subrange(p_in as int, src.len() as int));
-                let n = (pos.index_out - p_out) as int;
-                if n > 0 {
-                    // a data copy happened: extend both views by the same segment
-                    let a0 = dst@.subrange(0, p_out as int);
-                    let b0 = src@.subrange(0, p_in as int);
-                    let x = src@.subrange(p_in as int, p_in + n);
-                    assert(p_dst.subrange(0, p_out as int) =~= dst@.subrange(0, p_out as int));
-                    lemma_subseq_extend_both(a0, b0, x);
-                    assert(dst@.subrange(0, pos.index_out as int) =~= a0 + x);
-                    assert(src@.subrange(0, pos.index_in as int) =~= b0 + x);
-                    if p_out == 0 { seg_a = p_in as int; }
-                    assert(src@.subrange(seg_a, seg_a + pos.index_out) =~= dst@.subrange(0, pos.index_out as int));
-                } else {
-                    let a0 = dst@.subrange(0, p_out as int);
-                    let b0 = src@.subrange(0, p_in as int);
-                    let x = src@.subrange(p_in as int, pos.index_in as int);
-                    assert(p_dst.subrange(0, p_out as int) =~= dst@.subrange(0, p_out as int)) by {
-                        if p_state is Chunk {} else { assert(dst@ == p_dst); }
-                    }
-                    lemma_subseq_extend_b(a0, b0, x);
-                    assert(src@.subrange(0, pos.index_in as int) =~= b0 + x);
-                    if p_out == 0 { seg_a = pos.index_in as int; assert(src@.subrange(seg_a, seg_a + 0) =~= dst@.subrange(0, 0)); }
                 }
             }
 ''')],
